@@ -250,11 +250,10 @@ func init() {
 			{"reconstruct", 2, 1, 50, 4}, // 4 x 2, short last chunk
 		}
 		thorough := []sc{
-			{"encode", 5, 1, 48, 3},      // 3 x 5
-			{"encode", 3, 1, 64, 4},      // 4 x 3
-			{"reconstruct", 3, 1, 64, 4}, // 4 x 3
+			{"encode", 5, 1, 48, 3},      // 3 x 5   (18!/(6!)^3 = 17.2 M interleavings)
+			{"encode", 3, 1, 64, 4},      // 4 x 3   (16!/(4!)^4 = 63.1 M)
+			{"reconstruct", 3, 1, 50, 4}, // 4 x 3 with a short last chunk (63.1 M)
 			{"encode", 2, 2, 34, 7},      // g > number of 16-byte units
-			{"encode", 2, 1, 80, 5},      // 5 x 2
 		}
 		list := quick
 		if g.Thorough() {
@@ -264,6 +263,9 @@ func init() {
 			for _, gran := range []string{"kernel", "stmt"} {
 				bound := -1
 				split := 6
+				if g.Thorough() {
+					split = 9 // more, smaller work units: better balance over the worker processes
+				}
 				if gran == "stmt" {
 					bound = 2
 					if g.Thorough() {
